@@ -709,10 +709,19 @@ class TorConfig:
             if not any([socks_config == str(port) or socks_config == str(port).split()[0]
                         for port in self.SocksPort]):
                 # need to configure Tor
+                name = self._find_real_name('SocksPort')
+                was_pending = name in self.unsaved
                 self.SocksPort.append(socks_config)
                 try:
                     yield self.save()
                 except TorProtocolError as e:
+                    # Tor refused, so this port is not configured:
+                    # take it out of our list again, or every later
+                    # save() would send it (and be refused) once more
+                    if socks_config in self.SocksPort:
+                        self.SocksPort.remove(socks_config)
+                    if not was_pending:
+                        self.unsaved.pop(name, None)
                     extra = ''
                     if socks_config.startswith('unix:'):
                         # XXX so why don't we check this for the
